@@ -361,9 +361,10 @@ impl Check {
     ///
     /// `f` returns `Ok(())`, or `Err(Fail)`; failures whose signature is a known finding are
     /// counted and treated as passes so that the search continues behind them.
-    pub fn run_prop<S, F>(&mut self, kind: &str, workers: usize, cases: u32, strat: S, f: F)
+    pub fn run_prop<S, M, F>(&mut self, kind: &str, workers: usize, cases: u32, make_strat: M, f: F)
     where
-        S: Strategy + Clone + Send + Sync,
+        S: Strategy,
+        M: Fn() -> S + Sync,
         S::Value: Serialize + Debug + Clone + Send,
         F: Fn(&S::Value, &mut CaseInfo) -> Result<(), Fail> + Send + Sync,
     {
@@ -376,7 +377,7 @@ impl Check {
         let results: Vec<(Stats, Option<Violation>)> = std::thread::scope(|scope| {
             let handles: Vec<_> = (0..workers.max(1))
                 .map(|w| {
-                    let strat = strat.clone();
+                    let make_strat = &make_strat;
                     let f = &f;
 
                     std::thread::Builder::new()
@@ -387,7 +388,7 @@ impl Check {
                                 kind,
                                 mix(base_seed, w as u64),
                                 cases,
-                                strat,
+                                make_strat(),
                                 f,
                                 kf,
                                 strict,
@@ -473,6 +474,22 @@ impl Check {
     pub fn finish(mut self) -> ! {
         let wall = self.start.elapsed().as_secs_f64();
         let root = PathBuf::from(VERIF_ROOT);
+
+        // Harness errors are never reported as violations
+        let harness_errors: Vec<_> = self
+            .violations
+            .iter()
+            .filter(|v| v.signature.starts_with("harness"))
+            .map(|v| format!("{}: {}", v.signature, v.message))
+            .collect();
+
+        if !harness_errors.is_empty() {
+            for e in harness_errors {
+                eprintln!("INCONCLUSIVE harness error: {e}");
+            }
+
+            std::process::exit(2);
+        }
 
         // Write replay files for violations
         let mut violation_lines = Vec::new();
@@ -637,6 +654,11 @@ pub fn panic_site(msg: &str) -> String {
         }
         None => "unknown".to_string(),
     }
+}
+
+/// Whether a panic site (as returned by `panic_site`) lies in the code under test.
+pub fn is_repo_site(site: &str) -> bool {
+    site.starts_with("src/") || site.starts_with("ethercrab-wire") || site.contains("/repo/")
 }
 
 /// Run `f`, converting a panic into `Err(message @ location)`.
